@@ -6,7 +6,7 @@ CONSTANTS
   FileModes = {TRUE, FALSE}
   Palettes = {}
   Kinds = {1, 2}
-  RestartResizes = TRUE
+  RestartResizes = FALSE
   IgnoreModes = {FALSE}
   AnonModes = {FALSE}
   Faults = TRUE
